@@ -37,6 +37,7 @@ GenNext ==
        /\ \/ \E f \in Flows : PeerReplies(f, nextId, f) /\ sched' = Append(sched, O("R", f, 0, "-"))
           \/ \E a \in Addr : ServerDown(a) /\ sched' = Append(sched, O("Down", 0, 0, a))
           \/ \E a \in Addr : ServerUp(a) /\ sched' = Append(sched, O("Up", 0, 0, a))
+          \/ \E f \in Flows : SocketFault(f) /\ sched' = Append(sched, O("Fault", f, 0, "-"))
           \/ ClientStalls /\ sched' = Append(sched, O("Stall", 0, 0, "-"))
           \/ ClientResumes /\ sched' = Append(sched, O("Resume", 0, 0, "-"))
        /\ UNCHANGED nap
